@@ -896,6 +896,8 @@ def evaluate(t, env, memo=None):
         r = env[t]
     elif isinstance(t, Const):
         r = t.v
+    elif isinstance(t, Ext):
+        r = t
     elif isinstance(t, Lin):
         r = t.const
         for x, c in t.terms:
@@ -904,6 +906,11 @@ def evaluate(t, env, memo=None):
         r = evaluate(t.a, env, memo) if evaluate(t.c, env, memo) else evaluate(t.b, env, memo)
     elif isinstance(t, Op):
         op = t.op
+        hooks = env.get("__ops__")
+        if hooks and op in hooks:
+            r = hooks[op](*[evaluate(a, env, memo) for a in t.args])
+            memo[k] = r
+            return r
         if op == "and":
             r = True
             for a in t.args:
